@@ -571,6 +571,27 @@ func (in *inliner) expand(s ast.Stmt, call *ast.CallExpr, callee *Func, stack []
 		}
 		return true
 	})
+	// every copy gets its own variables: two copies of one helper in one
+	// function must not share the objects of the helper's locals
+	freshObjs := map[types.Object]types.Object{}
+	fresh := func(obj types.Object) types.Object {
+		v, ok := obj.(*types.Var)
+		if !ok || v.IsField() || v.Pkg() == nil || v.Pos() < callee.Decl.Pos() || v.Pos() > callee.Decl.End() {
+			return obj
+		}
+		if v.Parent() != nil && v.Parent() == v.Pkg().Scope() {
+			return obj
+		}
+		if n, ok := freshObjs[obj]; ok {
+			return n
+		}
+		n := types.NewVar(v.Pos(), v.Pkg(), v.Name(), v.Type())
+		freshObjs[obj] = n
+		return n
+	}
+	if os.Getenv("PDFVERIF_NOFRESH") != "" {
+		fresh = func(obj types.Object) types.Object { return obj }
+	}
 	subst := map[types.Object]ast.Expr{}
 	var pre []ast.Stmt
 	for _, b := range binds {
@@ -583,7 +604,7 @@ func (in *inliner) expand(s ast.Stmt, call *ast.CallExpr, callee *Func, stack []
 		}
 		// param := arg
 		lhs := &ast.Ident{NamePos: b.id.NamePos, Name: b.id.Name}
-		info.Defs[lhs] = b.obj
+		info.Defs[lhs] = fresh(b.obj)
 		pre = append(pre, &ast.AssignStmt{Lhs: []ast.Expr{lhs}, TokPos: b.arg.Pos(), Tok: token.DEFINE, Rhs: []ast.Expr{b.arg}})
 	}
 
@@ -604,7 +625,7 @@ func (in *inliner) expand(s ast.Stmt, call *ast.CallExpr, callee *Func, stack []
 		}
 	}
 
-	cl := &cloner{info: info, subst: subst}
+	cl := &cloner{info: info, subst: subst, fresh: fresh}
 	body := cl.node(callee.Decl.Body).(*ast.BlockStmt)
 	// leading defers of plain calls are replayed behind the body, in reverse order
 	var deferred []ast.Stmt
@@ -628,7 +649,7 @@ func (in *inliner) expand(s ast.Stmt, call *ast.CallExpr, callee *Func, stack []
 			continue
 		}
 		d := &ast.Ident{NamePos: id.NamePos, Name: id.Name}
-		info.Defs[d] = info.ObjectOf(id)
+		info.Defs[d] = fresh(info.ObjectOf(id))
 		var typ ast.Expr
 		for _, f := range callee.Decl.Type.Results.List {
 			for _, n := range f.Names {
@@ -690,7 +711,7 @@ func (in *inliner) expand(s ast.Stmt, call *ast.CallExpr, callee *Func, stack []
 			if len(results) == 0 {
 				for _, id := range named {
 					u := &ast.Ident{NamePos: r.Return, Name: id.Name}
-					info.Uses[u] = info.ObjectOf(id)
+					info.Uses[u] = fresh(info.ObjectOf(id))
 					if tv, ok := info.Types[id]; ok {
 						info.Types[u] = tv
 					} else if o := info.ObjectOf(id); o != nil {
@@ -765,6 +786,9 @@ type cloner struct {
 	// rewrite, when set, may replace a node before it is copied (the
 	// replacement is used as it is)
 	rewrite func(n ast.Node) ast.Node
+	// fresh, when set, maps an object of the copied code to the object the
+	// copy uses in its place
+	fresh func(types.Object) types.Object
 }
 
 var (
@@ -787,8 +811,8 @@ func (c *cloner) node(n ast.Node) ast.Node {
 		if obj := c.info.Uses[id]; obj != nil {
 			if r, ok := c.subst[obj]; ok {
 				cp := (&cloner{info: c.info}).node(r).(ast.Expr)
-				if _, isID := cp.(*ast.Ident); !isID {
-					if _, isLit := cp.(*ast.BasicLit); !isLit {
+				if !primaryExpr(cp) {
+					{
 						cp = &ast.ParenExpr{Lparen: id.Pos(), X: cp, Rparen: id.End()}
 						if tv, ok := c.info.Types[r]; ok {
 							c.info.Types[cp] = tv
@@ -821,9 +845,15 @@ func (c *cloner) copyInfo(o, n ast.Node) {
 	case *ast.Ident:
 		ni := n.(*ast.Ident)
 		if obj, ok := info.Defs[x]; ok {
+			if c.fresh != nil && obj != nil {
+				obj = c.fresh(obj)
+			}
 			info.Defs[ni] = obj
 		}
 		if obj, ok := info.Uses[x]; ok {
+			if c.fresh != nil && obj != nil {
+				obj = c.fresh(obj)
+			}
 			info.Uses[ni] = obj
 		}
 		if inst, ok := info.Instances[x]; ok {
@@ -835,6 +865,9 @@ func (c *cloner) copyInfo(o, n ast.Node) {
 		}
 	}
 	if obj, ok := info.Implicits[o]; ok {
+		if c.fresh != nil && obj != nil {
+			obj = c.fresh(obj)
+		}
 		info.Implicits[n] = obj
 	}
 	if sc, ok := info.Scopes[o]; ok {
@@ -1544,4 +1577,18 @@ func ExprStrAliased(f *Func, e ast.Expr) string {
 		return nil
 	}
 	return ExprStr(c.node(e).(ast.Expr))
+}
+
+// primaryExpr: an expression that binds tighter than any operator, so that
+// it can stand for an identifier without parentheses.
+func primaryExpr(e ast.Expr) bool {
+	switch x := e.(type) {
+	case *ast.Ident, *ast.BasicLit, *ast.ParenExpr, *ast.CallExpr:
+		return true
+	case *ast.SelectorExpr:
+		return primaryExpr(x.X)
+	case *ast.IndexExpr:
+		return primaryExpr(x.X)
+	}
+	return false
 }
